@@ -794,7 +794,7 @@ func genBase(r *core.Rand, l *leaf, t reflect.Type, nonZero bool) reflect.Value 
 		case "float":
 			v.SetFloat(genFloat(r, t.Bits()))
 		case "bool":
-			v.SetBool(r.Bool())
+			v.SetBool(nonZero || r.Bool())
 		case "string", "tagged":
 			v.SetString(genString(r))
 		case "bytes":
@@ -875,8 +875,11 @@ func genBase(r *core.Rand, l *leaf, t reflect.Type, nonZero bool) reflect.Value 
 		default:
 			panic("genBase: " + l.class)
 		}
-		if !nonZero || !v.IsZero() || try > 20 {
+		if !nonZero || !v.IsZero() {
 			return v
+		}
+		if try > 200 {
+			panic("c03 harness: no non-zero value for " + l.kindName())
 		}
 	}
 }
